@@ -1,4 +1,5 @@
 """Sidecar contracts for btc_hd_wallet/wallet_utils.py (C07 Version, C17 Bip32Path)."""
+from . import summaries as _SUM_ALWAYS      # noqa: F401,E402  (summaries installed independent of import order)
 import z3
 from pyvc import prims as U
 from pyvc import logic as L
